@@ -157,7 +157,7 @@ def call_site(span):
     """Outermost (user-code) span of a diagnostic span: follows macro expansions back to the file we generated."""
     while span.get("expansion") and span["expansion"].get("span"):
         nxt = span["expansion"]["span"]
-        if not nxt.get("file_name", "").startswith("src/gen/"):
+        if not os.path.normpath(nxt.get("file_name", "")).startswith("src/gen/"):
             break
         span = nxt
     return span
@@ -185,7 +185,7 @@ def attribute_errors(msgs, spans_by_file):
         hit = None
         for sp in prim:
             cs = call_site(sp)
-            fn = cs.get("file_name", "")
+            fn = os.path.normpath(cs.get("file_name", ""))
             for (a, b, i) in spans_by_file.get(fn, []):
                 if a <= cs.get("line_start", 0) <= b:
                     hit = (i, sp, cs)
@@ -228,3 +228,185 @@ def classify_compile_failure(errs):
         else:
             cls = "E:" + (e["code"] or "other")
     return cls
+
+# ---------------------------------------------------------------------------------------------- pipeline
+def suspicious(d):
+    """Families suspected not to compile (DESIGN §5).  Only an optimisation: they are compiled first with `cargo check`
+    so that the main build does not fail; whatever compiles there joins the main build and is judged like the rest,
+    and a definition that unexpectedly fails in the main build is attributed and excluded the same way."""
+    if d["kind"] == "struct":
+        return (any(f["flatten"] or f["rclass"] == "dash" or f["ty"] == "bool" for f in d["fields"])
+                or "KEBAB" in d["ra"].upper()
+                or any(S(f["name"]).startswith("_") or S(f["name"]).endswith("_") or "__" in S(f["name"]) for f in d["fields"]))
+    return ("KEBAB" in d["ra"].upper() or "SNAKE" in d["ra"].upper()
+            or (d["tagging"] == "internal" and any(v["shape"] == "newtype" for v in d["variants"])))
+
+def empty_all_modules():
+    os.makedirs(GEN, exist_ok=True)
+    for k in range(NSHARDS):
+        write_module(os.path.join(GEN, "g%d.rs" % k), [])
+    write_module(os.path.join(GEN, "probe.rs"), [])
+
+def compile_filter(ctx, defs, mode, failed, max_rounds=6):
+    """Compiles `defs` (mode 'probe': cargo check of one module; mode 'build': cargo build of the shards).  Definitions
+    whose Schema derive panics or expands to ill-typed code are moved to `failed` {id: obs}; returns the survivors."""
+    defs = list(defs)
+    for rnd in range(max_rounds):
+        t = time.time()
+        spans = {}
+        if mode == "probe":
+            spans["src/gen/probe.rs"] = write_module(os.path.join(GEN, "probe.rs"), defs)
+            rc, msgs, err = cargo(["check", "--bin", "vhsprobe"], 900)
+        else:
+            n = len(defs)
+            k_used = max(1, min(NSHARDS, (n + 39) // 40))
+            for k in range(NSHARDS):
+                part = defs[k::k_used] if k < k_used else []
+                spans["src/gen/g%d.rs" % k] = write_module(os.path.join(GEN, "g%d.rs" % k), part)
+            rc, msgs, err = cargo(["build", "--bins"], 1500)
+        log("[cargo] %s round %d: %d definition(s), rc=%d, %.1fs" % (mode, rnd + 1, len(defs), rc, time.time() - t))
+        if rc == 0:
+            return defs
+        per, loose = attribute_errors(msgs, spans)
+        if not per:
+            sys.stdout.write(err[-4000:])
+            raise ToolError("harness-schema does not build and the errors cannot be attributed to a generated definition "
+                            "(does /repo still compile with features rt_tokio,openapi?): %s" % "; ".join(loose[:3]))
+        for i, errs in per.items():
+            e = errs[0]
+            if "Schema" not in e["who"]:
+                raise ToolError("definition %d is rejected by %s, not by derive(Schema): the generator left serde's grammar: %s"
+                                % (i, e["who"], e["what"]))
+            failed[i] = {"kind": e["kind"], "cls": classify_compile_failure(errs), "what": e["what"], "nerrors": len(errs)}
+        defs = [d for d in defs if d["id"] not in per]
+    raise ToolError("harness-schema still does not build after %d rounds of excluding failing definitions" % max_rounds)
+
+def observe(ctx, defs):
+    """definitions (with ids) -> observation lines {"id","scn","obs"} in id order"""
+    failed = {}
+    empty_all_modules()
+    sus = [d for d in defs if suspicious(d)]
+    rest = [d for d in defs if not suspicious(d)]
+    ok_sus = compile_filter(ctx, sus, "probe", failed) if sus else []
+    write_module(os.path.join(GEN, "probe.rs"), [])
+    ctx.extra["suspicious_precompiled"] = len(sus)
+    good = compile_filter(ctx, sorted(rest + ok_sus, key=lambda d: d["id"]), "build", failed)
+    out = {}
+    t = time.time()
+    n = len(good)
+    k_used = max(1, min(NSHARDS, (n + 39) // 40))
+    for k in range(k_used):
+        p = subprocess.run([os.path.join(HS, "target", "debug", "vhs%d" % k)], stdout=subprocess.PIPE, stderr=subprocess.PIPE,
+                           text=True, timeout=600)
+        if p.returncode != 0:
+            raise ToolError("generated program shard %d exited with %d: %s" % (k, p.returncode, p.stderr[-1500:]))
+        for l in p.stdout.splitlines():
+            r = json.loads(l)
+            out[r["id"]] = r["obs"]
+    log("[run] %d generated type(s) observed at run time in %.1fs; %d definition(s) did not compile" % (len(out), time.time() - t, len(failed)))
+    lines = []
+    for d in defs:
+        i = d["id"]
+        scn = {k: v for k, v in d.items() if k not in ("id", "nontrivial")}
+        if i in failed:
+            obs = failed[i]
+        elif i in out:
+            obs = out[i]
+            if obs.get("kind") == "tool-error":
+                raise ToolError("generated program: %s (definition %s)" % (obs.get("what"), json.dumps(scn)))
+            if obs.get("kind") == "panic":
+                obs = {"kind": "panic", "cls": "schema()-panicked", "what": obs.get("what", "")[:200]}
+        else:
+            raise ToolError("no observation for definition %d" % i)
+        lines.append({"id": i, "scn": scn, "obs": obs})
+    return lines
+
+def judge(ctx, lines, chunk=1200):
+    verdicts = {}
+    for c in range(0, len(lines), chunk):
+        part = lines[c:c + chunk]
+        tp = ctx.write_ndjson("trace-%d.ndjson" % (c // chunk), part)
+        t = ctx.validate("Trace_SchemaRel", "Trace_SchemaRel.cfg", tp, len(part), name="trace-%d" % (c // chunk), heap="6g", timeout=1500)
+        for r in t.lines:
+            if r.get("t") == "VERDICT":
+                verdicts[r["id"]] = r
+    ctx.traces = len(lines)
+    nbad = 0
+    for o in lines:
+        v = verdicts.get(o["id"])
+        if v is None:
+            raise ToolError("Trace_SchemaRel produced no verdict for line id=%s: %s" % (o["id"], json.dumps(o)[:500]))
+        if not v["refok"]:
+            raise ToolError("the spec's reference of serde (RefValue/RefProbeOk) disagrees with what serde did - a defect of "
+                            "SchemaRel.tla, not of /repo: %s" % json.dumps({"scn": o["scn"], "samples": [
+                                {"v": s["v"], "some": s["some"], "raw": s["raw"], "roundtrip": s["roundtrip"],
+                                 "probes": [["/".join(S(k) for k in p["path"]), p["ok"]] for p in s["probes"]]}
+                                for s in o["obs"].get("samples", [])]})[:1500])
+        if v["ok"]:
+            continue
+        nbad += 1
+        for sig in v["fails"]:
+            sig = {k: x for k, x in sig.items() if x != "-"}
+            what = {"def": describe(o["scn"]), "schema": o["obs"].get("raw", o["obs"].get("what", ""))[:300],
+                    "serde": [s["raw"] for s in o["obs"].get("samples", [])][:4]}
+            ctx.violation(sig, json.dumps(what)[:700], o)
+    log("[judge] %d observation line(s) judged by Trace_SchemaRel: %d outside the property" % (len(lines), nbad))
+    return verdicts
+
+def describe(scn):
+    """one-line Rust-ish rendering of a definition for messages"""
+    d = dict(scn); d["id"] = 0
+    body = render_struct(d) if d["kind"] == "struct" else render_enum(d)
+    txt = " ".join(l.strip() for l in body)
+    return txt[:txt.index("fn ")].strip() if "fn " in txt else txt
+
+def run(ctx):
+    q = ctx.quick
+    ctx.tlc("MC_SchemaRel", "MC_SchemaRel.cfg", workers=8, timeout=600)
+    g = ctx.tlc("SchemaRelGen", "Gen_SchemaRel.cfg" if q else "Gen_SchemaRel_deep.cfg", workers=1, timeout=600)
+    if not g.lines:
+        raise ToolError("SchemaRelGen emitted no definition")
+    # deterministic order independent of TLC's set enumeration
+    defs = sorted(g.lines, key=lambda d: json.dumps(d, sort_keys=True))
+    for i, d in enumerate(defs):
+        d["id"] = i
+        if d.get("nontrivial"):
+            ctx.nontrivial.add(i)
+    ctx.extra["definitions"] = len(defs)
+    ctx.extra["structs"] = sum(1 for d in defs if d["kind"] == "struct")
+    ctx.extra["enums"] = sum(1 for d in defs if d["kind"] == "enum")
+    lines = observe(ctx, defs)
+    ctx.evaluations = sum(len(o["obs"].get("samples", [])) + sum(len(s["probes"]) for s in o["obs"].get("samples", [])) + 1 for o in lines)
+    ctx.extra["values_serialized"] = sum(len(o["obs"].get("samples", [])) for o in lines)
+    ctx.extra["from_value_probes"] = sum(len(s["probes"]) for o in lines for s in o["obs"].get("samples", []))
+    ctx.extra["definitions_not_compiling"] = sum(1 for o in lines if o["obs"]["kind"] != "ok")
+    for o in lines[:: max(1, len(lines) // 5)][:5]:
+        ctx.sample({"def": describe(o["scn"]), "schema": o["obs"].get("raw", o["obs"].get("cls")),
+                    "serde": [s["raw"] for s in o["obs"].get("samples", [])][:2]})
+    judge(ctx, lines)
+    return finish(ctx, rule=RULE, exhaustive=False,
+                  assumptions=["serde / serde_derive / serde_json of /repo's Cargo.lock are the reference for what serde does; "
+                               "the spec's own reference (RefValue, RefProbeOk) is cross-checked against them on every line",
+                               "field types String, i32, Option<_>, a nested derived struct; tag/content keys `t`/`c`",
+                               "values: all Options Some / all None",
+                               "a key is 'needed' iff from_value fails (or reads another variant) once it is removed",
+                               "`nullable: true` is read as admitting null; `$ref` inside a bare schema() is unresolvable"],
+                  trusted=["harness-schema/src/rt.rs (schema JSON -> node facts, value -> kind tree, key-removal probes)",
+                           "lib/props/c16.py render_struct/render_enum (definition -> Rust source) and rustc diagnostic attribution",
+                           "serde, serde_derive, serde_json", "rustc/cargo"])
+
+def replay(ctx, path):
+    doc = json.load(open(path))
+    scn = doc["scenario"]["scn"]
+    d = dict(scn); d["id"] = 0
+    lines = observe(ctx, [d])
+    print(json.dumps({"def": describe(scn), "obs": {k: v for k, v in lines[0]["obs"].items() if k in ("kind", "cls", "what", "raw")},
+                      "serde": [s["raw"] for s in lines[0]["obs"].get("samples", [])]}, indent=1))
+    v = judge(ctx, lines)
+    print(json.dumps(v[0]))
+    want = doc.get("signature")
+    sigs = [{k: x for k, x in s.items() if x != "-"} for s in v[0]["fails"]]
+    bad = (not v[0]["ok"]) and (want is None or want in sigs)
+    if bad:
+        print("VIOLATION property=C16 replay=%s" % path)
+    return 1 if bad else 0
